@@ -9,10 +9,16 @@ Parts
  (c) generator obligation of `flag_false_independent` on every interior-facet kernel:
      needs_facet_permutations == False  =>  the exported AST does not read quadrature_permutation
      (the Lean predicate `readsS` evaluated by the native driver on the exported AST), and such kernels
-     return the same tensor for every permutation code.
- (d) numbering-invariance search on compiled C kernels: two physical cells sharing a facet, every
-     (sampled) pair of local vertex numberings, aligning codes found geometrically, dofs matched by
-     the physical basis functions; the un-permuted tensor must equal that of the reference numbering.
+     return the same tensor for every pair of permutation codes and every pair of numberings with the
+     codes left at [0, 0].  The forms include kernels that really are flagged false (one-sided DG0, one-sided
+     P1 gradients, one-sided one-point rules, interval cells); a run in which NO kernel is flagged false
+     is reported (the obligation would be vacuous).
+ (d) numbering-invariance search on compiled C kernels: two physical cells sharing a facet, EVERY pair of
+     local vertex numberings in both tiers (4 interval, 36 triangle, 64 quadrilateral, 576 tetrahedron,
+     2304 hexahedron pairs = all pairs of symmetries of the reference cell), aligning codes found
+     geometrically, dofs matched by the physical basis functions; the un-permuted tensor must equal that
+     of the reference numbering.  The tiers differ in the number of random geometries per form (1 / 4)
+     and in two extra higher-degree forms.
 """
 import itertools
 import random
@@ -220,6 +226,38 @@ def c03_forms(tier):
             return dict(form=form, test=e, trial=e)
         return b
 
+    # kernels flagged needs_facet_permutations = false on the pinned tree (one-sided integrands whose tables do not depend
+    # on the facet permutation): piecewise-constant elements, gradients of degree-1 simplex elements, one-point rules
+    # (the midpoint of the reference facet is fixed by every permutation), interval cells (point facets)
+    def one_sided(cell, kind, r):
+        def b(m):
+            dg0 = G.El("DP" if cell in ("interval", "triangle", "tetrahedron") else "DQ", cell, 0)
+            e1, e2 = G.lag(cell, 1), G.lag(cell, 2)
+            n = FacetNormal(m)
+            if kind == "dg0":
+                V = FunctionSpace(m, dg0.ufl)
+                return dict(form=Coefficient(V)(r) * TestFunction(V)(r) * dS, test=dg0, coefs=[dg0], kind="one-sided")
+            if kind == "p1grad":
+                V, W = FunctionSpace(m, e1.ufl), FunctionSpace(m, dg0.ufl)
+                return dict(form=inner(grad(Coefficient(V))(r), n(r)) * TestFunction(W)(r) * dS, test=dg0, coefs=[e1],
+                            kind="one-sided")
+            if kind == "onepoint":
+                V = FunctionSpace(m, e2.ufl)
+                return dict(form=Coefficient(V)(r) * TestFunction(V)(r) * dS(degree=1), test=e2, coefs=[e2],
+                            kind="one-sided")
+            V = FunctionSpace(m, e2.ufl)  # "full": interval cells only (no facet permutations in 1D)
+            return dict(form=Coefficient(V)(r) * TestFunction(V)(r) * dS, test=e2, coefs=[e2], kind="one-sided")
+        return b
+
+    out.append(NForm("ff_tri_dg0", "triangle", one_sided("triangle", "dg0", "+")))
+    out.append(NForm("ff_tri_p1grad", "triangle", one_sided("triangle", "p1grad", "+")))
+    out.append(NForm("ff_tri_onepoint", "triangle", one_sided("triangle", "onepoint", "+")))
+    out.append(NForm("ff_interval_p2", "interval", one_sided("interval", "full", "+")))
+    out.append(NForm("ff_quad_onepoint", "quadrilateral", one_sided("quadrilateral", "onepoint", "+")))
+    out.append(NForm("ff_tet_dg0", "tetrahedron", one_sided("tetrahedron", "dg0", "+")))
+    out.append(NForm("ff_tet_p1grad", "tetrahedron", one_sided("tetrahedron", "p1grad", "+")))
+    out.append(NForm("ff_tet_onepoint", "tetrahedron", one_sided("tetrahedron", "onepoint", "+")))
+    out.append(NForm("ff_hex_onepoint", "hexahedron", one_sided("hexahedron", "onepoint", "+")))
     out.append(NForm("tri_p2_bilinear", "triangle", lag_bilinear("triangle", 2)))
     out.append(NForm("tri_dp1_bilinear", "triangle", lag_bilinear("triangle", 1, "DP")))
     out.append(NForm("tri_linear", "triangle", lag_linear("triangle", 2)))
@@ -248,11 +286,15 @@ def c03_forms(tier):
 def flag_obligation(chk, d, named_forms):
     """needs_facet_permutations == False  =>  AST does not read quadrature_permutation."""
     stats = {"flag_true": 0, "flag_false": 0, "reads": 0}
-    for name, forms, kind in named_forms:
+    for name, forms, kind, c03_owned in named_forms:
         try:
             cases, _, _ = kernels.cases_for_forms(name, forms)
         except Exception as ex:  # noqa: BLE001
             chk.notes.setdefault("flag_skipped", []).append(f"{name}: {type(ex).__name__}")
+            if c03_owned:
+                # the forms of this module are accepted on the pinned tree: losing one would silently shrink the obligation
+                chk.disagree("flag obligation: a form of c03_forms could not be lowered to kernels",
+                             {"form": name, "error": f"{type(ex).__name__}: {str(ex)[:300]}"})
             continue
         for case in cases:
             if case.integral_type != "interior_facet":
@@ -275,9 +317,15 @@ def flag_obligation(chk, d, named_forms):
                              "ast_reads_quadrature_permutation": True,
                              "lean": "generator obligation of Ffcx.C03.flag_false_independent"})
     chk.notes["flag_stats"] = stats
+    if stats["flag_false"] == 0:
+        chk.disagree("flag obligation is vacuous: no interior-facet kernel of the run is flagged needs_facet_permutations=false",
+                     {"flag_stats": stats, "hint": "the ff_* forms of c03_forms are flagged false on the pinned tree"})
 
 
 # ------------------------------------------------------------------------- (d) numbering search
+HarnessGeometryError = G.HarnessGeometryError
+
+
 def renumbered(pc, pi):
     return G.PhysCell(pc.cell, pc.V[list(pi)])
 
@@ -287,7 +335,8 @@ def local_facet(cell, base_facet, pi):
     topo = G.ref_topology(cell)[G.TDIM[cell] - 1]
     target = set(topo[base_facet])
     hits = [f for f, fv in enumerate(topo) if {pi[j] for j in fv} == target]
-    assert len(hits) == 1, (cell, base_facet, pi, hits)
+    if len(hits) != 1:
+        raise HarnessGeometryError(f"local_facet: {len(hits)} facets of the renumbered {cell} match facet {base_facet} ({pi})")
     return hits[0]
 
 
@@ -305,7 +354,7 @@ def basis_change(el, pc, pcn):
     Mt, *_ = np.linalg.lstsq(Bo2, Bn2, rcond=None)
     res = float(np.abs(Bo2 @ Mt - Bn2).max())
     if res > 1e-9:
-        raise RuntimeError(f"basis of {el.family} {el.degree} not covariant under renumbering (residual {res:.2e})")
+        raise HarnessGeometryError(f"basis of {el.family} {el.degree} not covariant under renumbering (residual {res:.2e})")
     return Mt.T
 
 
@@ -327,13 +376,17 @@ class Config:
         syms = G.facet_symmetries(self.ft)
         tau = syms[int(rng.integers(0, len(syms)))]
         self.cp = G.random_affine_cell(cell, rng)
-        self.cm = G.neighbour_cell(self.cp, self.ep, cell, self.em, tau, rng)
+        try:
+            self.cm = G.neighbour_cell(self.cp, self.ep, cell, self.em, tau, rng)
+        except AssertionError as ex:
+            raise HarnessGeometryError(f"neighbour_cell: {ex}") from ex
         # common physical parametrisation of the shared facet: '+' side of the reference numbering, code 0
         self.psi = self.cp.facet_param(self.ep, G.TEST_POINTS[self.ft])
 
 
 def evaluate(nf, form_c, mod, cfg, pis, w_id, chk, codes=None):
-    """Call the kernel for numbering `pis` = (pi+, pi-); returns (A in reference numbering, info)."""
+    """Call the kernel for numbering `pis` = (pi+, pi-); returns (A in reference numbering, info).
+    Raises HarnessGeometryError when the harness' own geometry fails (no unique aligning code, dofs not matched)."""
     cells = [renumbered(cfg.cp, pis[0]), renumbered(cfg.cm, pis[1])]
     base = [cfg.cp, cfg.cm]
     ents = [local_facet(cfg.cell, cfg.ep, pis[0]), local_facet(cfg.cell, cfg.em, pis[1])]
@@ -342,10 +395,9 @@ def evaluate(nf, form_c, mod, cfg, pis, w_id, chk, codes=None):
         for r in range(2):
             cands = G.aligning_codes(cfg.ft, lambda X, r=r: cells[r].facet_param(ents[r], X), cfg.psi)
             if len(cands) != 1:
-                chk.violation(key=f"align:{cfg.ft}:no-unique-code",
-                              what=f"{len(cands)} permutation codes align the facet points (expected exactly 1)",
-                              payload={"form": nf.name, "numbering": [list(p) for p in pis], "side": r, "candidates": cands})
-                return None, None
+                raise HarnessGeometryError(
+                    f"align:{cfg.ft}:no-unique-code: {len(cands)} permutation codes align the facet points of side {r} "
+                    f"(expected exactly 1; candidates {cands}; numbering {[list(p) for p in pis]})")
             codes.append(cands[0])
     Ms = {}
 
@@ -377,18 +429,15 @@ def evaluate(nf, form_c, mod, cfg, pis, w_id, chk, codes=None):
     return A, dict(entities=ents, codes=codes, coordinate_dofs=x.tolist(), w=G.pack_w(w, 2).tolist())
 
 
-def numbering_pairs(cell, tier, rng):
+def numbering_pairs(cell):
+    """(identity, ALL pairs (pi+, pi-) of vertex renumberings of the two cells): every pair of symmetries of the reference
+    cell — 2x2 interval, 6x6 triangle, 8x8 quadrilateral, 24x24 tetrahedron, 48x48 hexahedron — in both tiers."""
     syms = G.cell_symmetries(cell)
     ident = tuple(range(len(syms[0])))
-    allp = [(a, b) for a in syms for b in syms]
-    if cell in ("interval", "triangle", "quadrilateral"):
-        return ident, allp
-    budget = {"quick": {"tetrahedron": 144, "hexahedron": 64}, "thorough": {"tetrahedron": 576, "hexahedron": 600}}[
-        "quick" if tier == "quick" else "thorough"][cell]
-    if budget >= len(allp):
-        return ident, allp
-    idx = rng.choice(len(allp), size=budget, replace=False)
-    return ident, [allp[i] for i in sorted(idx)]
+    return ident, [(a, b) for a in syms for b in syms]
+
+
+EXPECTED_PAIRS = {"interval": 4, "triangle": 36, "quadrilateral": 64, "tetrahedron": 576, "hexahedron": 2304}
 
 
 def search(chk, rng):
@@ -396,46 +445,72 @@ def search(chk, rng):
     ufl_forms = [f.make() for f in forms]
     worst = {}
     reported = set()
+    geometry_failures = 0
+
+    def harness_failure(nf, what, ex):
+        nonlocal geometry_failures
+        geometry_failures += 1
+        if geometry_failures <= 5:
+            chk.disagree("numbering search: the harness' own geometry / dof matching failed (no statement about the kernel)",
+                         {"form": nf.name, "stage": what, "error": f"{type(ex).__name__}: {str(ex)[:300]}"})
+
     with pipeline.TmpCache() as cache:
-        compiled, mod, _ = pipeline.jit_forms(ufl_forms, cache)
+        try:
+            compiled, mod, _ = pipeline.jit_forms(ufl_forms, cache)
+        except Exception as ex:  # noqa: BLE001 - these forms compile on the pinned tree
+            chk.disagree("numbering search: the forms of c03_forms no longer compile",
+                         {"error": f"{type(ex).__name__}: {str(ex)[:400]}"})
+            return
         chk.programs += len(forms)
+        pair_counts = {}
         for nf, fc in zip(forms, compiled):
             integral = G.integrals_of(fc, "interior_facet")[0]
             flag = bool(integral.needs_facet_permutations)
             reps = 1 if chk.tier == "quick" else 4
+            ident, pairs = numbering_pairs(nf.cell)
+            pair_counts[nf.cell] = len(pairs)
             for rep in range(reps):
-                cfg = Config(nf.cell, rng)
-                ident, pairs = numbering_pairs(nf.cell, chk.tier, rng)
-                w_id = [[G.dyadic(rng, (el.dim,), -32, 32, 16.0) for _ in range(2)] for el in nf.coefs]
-                Aref, iref = evaluate(nf, fc, mod, cfg, (ident, ident), w_id, chk)
-                if Aref is None:
+                try:
+                    cfg = Config(nf.cell, rng)
+                    w_id = [[G.dyadic(rng, (el.dim,), -32, 32, 16.0) for _ in range(2)] for el in nf.coefs]
+                    Aref, iref = evaluate(nf, fc, mod, cfg, (ident, ident), w_id, chk)
+                except (HarnessGeometryError, AssertionError, RuntimeError, np.linalg.LinAlgError) as ex:
+                    harness_failure(nf, "reference numbering", ex)
                     continue
                 scale = max(1.0, float(np.abs(Aref).max()))
-                if flag:
-                    for pis in pairs:
-                        A, info = evaluate(nf, fc, mod, cfg, pis, w_id, chk)
-                        if A is None:
-                            continue
-                        err = float(np.abs(A - Aref).max()) / scale
-                        worst[nf.name] = max(worst.get(nf.name, 0.0), err)
-                        nontrivial = pis != (ident, ident) and float(np.abs(Aref).max()) > 1e-12
-                        chk.case(kind="numbering", key=f"{nf.name}:{pis}" if nontrivial else None,
-                                 sample={"form": nf.name, "numbering": [list(p) for p in pis], "codes": info["codes"],
-                                         "entities": info["entities"], "rel_err": err}
-                                 if rng.integers(0, 200) == 0 else None)
-                        if not (err <= 1e-10):
-                            chk.violation(
-                                key=f"numbering:{nf.name}",
-                                what=f"{nf.name}: tensor depends on the local vertex numbering (rel err {err:.3e})",
-                                payload={"form": nf.name, "cell": nf.cell, "numbering": [list(p) for p in pis],
-                                         "reference": iref, "renumbered": info, "A_reference": Aref.tolist(),
-                                         "A_unpermuted": A.tolist(), "seed": chk.seed})
+                # flagged true: aligned codes of every numbering; flagged false: the codes stay [0, 0] in every numbering
+                for pis in pairs:
+                    try:
+                        A, info = evaluate(nf, fc, mod, cfg, pis, w_id, chk, codes=None if flag else [0, 0])
+                    except (HarnessGeometryError, AssertionError, RuntimeError, np.linalg.LinAlgError) as ex:
+                        harness_failure(nf, f"numbering {[list(p) for p in pis]}", ex)
+                        continue
+                    err = float(np.abs(A - Aref).max()) / scale
+                    worst[nf.name] = max(worst.get(nf.name, 0.0), err)
+                    nontrivial = pis != (ident, ident) and float(np.abs(Aref).max()) > 1e-12
+                    chk.case(kind="numbering" if flag else "numbering_flag_false",
+                             key=f"{nf.name}:{pis}" if nontrivial else None,
+                             sample={"form": nf.name, "numbering": [list(p) for p in pis], "codes": info["codes"],
+                                     "entities": info["entities"], "rel_err": err}
+                             if rng.integers(0, 2000) == 0 else None)
+                    if not (err <= 1e-10):
+                        chk.violation(
+                            key=f"numbering:{nf.name}",
+                            what=f"{nf.name}: tensor depends on the local vertex numbering (rel err {err:.3e})",
+                            payload={"form": nf.name, "cell": nf.cell, "numbering": [list(p) for p in pis],
+                                     "needs_facet_permutations": flag,
+                                     "reference": iref, "renumbered": info, "A_reference": Aref.tolist(),
+                                     "A_unpermuted": A.tolist(), "seed": chk.seed})
                 # flagged false: the result must not depend on the permutation argument at all
                 if not flag:
                     ncodes = G.NUM_CODES[cfg.ft]
                     dep = None
                     for cp_, cm_ in itertools.product(range(ncodes), repeat=2):
-                        A, info = evaluate(nf, fc, mod, cfg, (ident, ident), w_id, chk, codes=[cp_, cm_])
+                        try:
+                            A, info = evaluate(nf, fc, mod, cfg, (ident, ident), w_id, chk, codes=[cp_, cm_])
+                        except (HarnessGeometryError, AssertionError, RuntimeError, np.linalg.LinAlgError) as ex:
+                            harness_failure(nf, f"codes {[cp_, cm_]}", ex)
+                            continue
                         err = float(np.abs(A - Aref).max()) / scale
                         chk.case(kind="flag_false_codes", key=f"{nf.name}:{cp_}:{cm_}")
                         worst[nf.name] = max(worst.get(nf.name, 0.0), err)
@@ -448,16 +523,27 @@ def search(chk, rng):
                             what=f"needs_facet_permutations=false but the tensor of {nf.name} changes with quadrature_permutation",
                             payload={"form": nf.name, "detail": dep, "custom_rule": {"points": CUSTOM_PTS.tolist(),
                                                                                      "weights": CUSTOM_WTS.tolist()}})
+        chk.notes["numbering_pairs_per_cell"] = pair_counts
+        for cell, n in pair_counts.items():
+            if n != EXPECTED_PAIRS[cell]:
+                chk.disagree("numbering search: the enumeration of numbering pairs is not the full set the texts claim",
+                             {"cell": cell, "enumerated": n, "expected": EXPECTED_PAIRS[cell]})
+    chk.notes["numbering_geometry_failures"] = geometry_failures
     chk.notes["numbering_worst_rel_err"] = {k: float(f"{v:.3e}") for k, v in worst.items()}
 
 
 def run(chk):
     rng = np.random.default_rng(3000 + chk.seed)
     random.seed(chk.seed)
-    chk.rule = ("numbering search: one case per (form, geometry, pair of local vertex numberings); non-trivial = not "
-                "the reference numbering and a non-zero tensor; correspondence: one case per (facet type, "
-                "reflections, rotations), per permutation row of a real table, per flag triple of table_access; "
-                "flag obligation: one case per interior-facet kernel")
+    chk.rule = ("numbering search: one case per (form, random geometry, pair of local vertex numberings), enumerating in BOTH "
+                "tiers ALL pairs of symmetries of the reference cell (interval 2x2=4, triangle 6x6=36, quadrilateral 8x8=64, "
+                "tetrahedron 24x24=576, hexahedron 48x48=2304 pairs); quick: 1 random geometry per form, thorough: 4 and two "
+                "more forms (hex Q2, tet P3); kind `numbering` = kernels flagged true with the geometrically aligned codes, "
+                "`numbering_flag_false` = kernels flagged false with codes [0,0] in every numbering, `flag_false_codes` = "
+                "kernels flagged false, reference numbering, all pairs of codes; non-trivial = not the reference numbering and "
+                "a non-zero tensor; correspondence: one case per (facet type, reflections, rotations), per permutation row of "
+                "a real table, per flag triple of table_access; flag obligation: one case per interior-facet kernel "
+                "(a run with no kernel flagged false is reported as vacuous)")
     chk.trusted += [
         "harness/props/c02.py geometry helpers (numpy + basix): physical cells, facet parametrisations, aligning "
         "codes found geometrically with the ufcx.h reading of a code (N//2 rotations then N%2 reflections, tied to "
@@ -465,7 +551,8 @@ def run(chk):
         "dof matching between numberings by least squares on pushed-forward basix basis functions",
     ]
     chk.assumptions += [
-        "DOLFINx is not installed: aligning codes are computed geometrically by the harness",
+        "DOLFINx is not installed: aligning codes are computed geometrically by the harness (a failure to find exactly one "
+        "is a harness failure and is reported as a broken tie, not as a failing input)",
         "search geometries are affine (parallelotopes for quadrilateral/hexahedron), degree-1 coordinate elements",
         "interior-facet integrals on prisms are rejected by FFCx and are not searched",
         "floating point: tensors are compared to relative 1e-10 (scaled by max(1, |A|))",
@@ -481,18 +568,18 @@ def run(chk):
     for e in corpus_mod.fixed():
         if "interior" in e.tags:
             try:
-                named.append((e.name, e.build(), "one-sided-dS" if e.name == "one_sided_dS" else None))
+                named.append((e.name, e.build(), "one-sided-dS" if e.name == "one_sided_dS" else None, False))
             except Exception as ex:  # noqa: BLE001
                 chk.notes.setdefault("corpus_build_failed", []).append(f"{e.name}: {type(ex).__name__}")
     for f in forms:
-        named.append((f.name, [f.make()], "one-sided-dS" if f.kind == "one-sided" else None))
+        named.append((f.name, [f.make()], "one-sided-dS" if f.kind == "one-sided" else None, True))
 
     with lean.Driver("driver_geom") as d:
         corr_permute(chk, d, rng)
         corr_is_permuted(chk, d, rng)
         corr_table_access(chk, d)
         total = 0
-        for name, fl, _ in named:
+        for name, fl, _, _ in named:
             with G.TableCapture() as cap:
                 try:
                     pipeline.compute(fl)
